@@ -7,7 +7,7 @@ Works without an active simulation too (plain pass-through), which is what the
 in-process verification epochs use.
 '''
 
-import os, io, errno, pathlib as _real_pathlib, fcntl as _real_fcntl, hashlib
+import os, io, errno, pathlib as _real_pathlib, fcntl as _real_fcntl, hashlib, time as _real_time
 from . import procsim
 from .procsim import K
 
@@ -260,9 +260,40 @@ class FcntlStub:
         # flock is tied to the open file description, i.e. to the inode: a file that was unlinked and re-created at the
         # same path is a different lock (ids are handed out in order of first use, so the event log stays deterministic)
         l = sim.flock_id(int(os.fstat(f.fileno()).st_ino))
-        sim.flock(l)
+        if op & self.LOCK_NB:
+            if not sim.try_flock(l):
+                raise BlockingIOError(errno.EAGAIN, 'Resource temporarily unavailable')
+        else:
+            sim.flock(l)
         f._flock = l
         return None
+
+
+class SimClock:
+    '''Stands in for the `time` module of nutils.cache IF that module has one (the pristine code reads no clock): virtual time, every sleep a yield point.'''
+
+    def __getattr__(self, name):
+        return getattr(_real_time, name)
+
+    def _now(self):
+        sim = _sim()
+        return sim.clock_now() if sim is not None else _real_time.monotonic()
+
+    def monotonic(self):
+        return self._now()
+
+    def time(self):
+        return self._now()
+
+    def perf_counter(self):
+        return self._now()
+
+    def sleep(self, seconds):
+        sim = _sim()
+        if sim is not None:
+            sim.clock_sleep(seconds)
+        else:
+            _real_time.sleep(seconds)
 
 
 class patched_cache:
@@ -272,9 +303,14 @@ class patched_cache:
         self._saved = (cache.pathlib, cache.fcntl)
         cache.pathlib = PathlibProxy()
         cache.fcntl = FcntlStub()
+        self._time = getattr(cache, 'time', None)
+        if self._time is not None:
+            cache.time = SimClock()
         return self
 
     def __exit__(self, *exc):
         from nutils import cache
         cache.pathlib, cache.fcntl = self._saved
+        if self._time is not None:
+            cache.time = self._time
         return False
